@@ -321,6 +321,48 @@ def check_interface_frames(ctx):
             ctx.violate("per-point bases are not stored as given", cj, {"kind": "interface_frame"})
 
 
+def check_scale_invariance(ctx):
+    """The same inspection drawn at another length scale (a thin film in nanometres, a large structure in metres): every point
+    multiplied by s.  Leg lengths are multiplied by s; the unsigned, conventional and signed angles are unchanged."""
+    import arim
+    import arim.geometry as g
+    from arim import ray
+
+    rng = ctx.rng
+    for it in range(6 * ctx.scale):
+        n = int(rng.integers(2, 5))
+        path = fixtures.generic_path(rng, n, random_frames=True, flags=None, two_d=False, sizes=[int(rng.integers(1, 3)) for _ in range(n)])
+        rg = ray.RayGeometry.from_path(path)
+        for s_ in (1e-6, 3e-9, 1e3):
+            ifaces = [arim.Interface(g.Points(i.points.coords * s_, i.points.name), i.orientations, i.kind, i.transmission_reflection, i.reflection_against,
+                                     i.are_normals_on_inc_rays_side, i.are_normals_on_out_rays_side) for i in path.interfaces]
+            p2 = arim.Path(tuple(ifaces), path.materials, path.modes, name=path.name)
+            ray.ray_tracing_for_paths([p2])
+            ctx.case(("scale", it, s_), True)
+            ctx.count(f"scaled_geometry:{s_:g}")
+            if not np.array_equal(p2.rays.indices, path.rays.indices):
+                continue    # a tie between two rays resolved the other way: another ray, not this clause
+            rg2 = ray.RayGeometry.from_path(p2)
+            cj = {"op": "scaled_geometry", "scale": s_, "numinterfaces": n, "points": [i.points.coords.tolist() for i in path.interfaces]}
+            for k in range(n):
+                for meth, scaled in (("inc_leg_size", True), ("inc_leg_polar", False), ("signed_inc_angle", False), ("conventional_inc_angle", False),
+                                     ("out_leg_polar", False), ("signed_out_angle", False), ("conventional_out_angle", False)):
+                    try:
+                        a1, a2 = getattr(rg, meth)(k), getattr(rg2, meth)(k)
+                    except ValueError:
+                        continue
+                    if a1 is None or a2 is None:
+                        if (a1 is None) != (a2 is None):
+                            ctx.violate(f"{meth}({k}) is None at one scale and not at the other", cj, {"kind": "scale"})
+                        continue
+                    want = np.asarray(a1) * (s_ if scaled else 1.0)
+                    tol = 1e-9 * (np.abs(want).max() + (0 if scaled else 1.0))
+                    if not np.all(np.abs(np.asarray(a2) - want) <= tol):
+                        ctx.violate(f"geometry multiplied by {s_:g}: {meth}({k}) is {np.asarray(a2).ravel()[:3]} instead of {want.ravel()[:3]} "
+                                    "(angles do not depend on the unit of length; lengths are proportional to it)", {**cj, "method": meth, "interface": k}, {"kind": "scale"})
+                        return
+
+
 def run(ctx):
     from arim import ray
 
@@ -329,6 +371,7 @@ def run(ctx):
                 "random normal-side flags (30% undeclared somewhere), every ray of each path; boundary stream with identity frames and legs exactly at azimuth +-pi/2, "
                 "0, pi and along the normal; distinct = distinct ray; non-trivial = at least 3 interfaces")
     check_interface_frames(ctx)
+    check_scale_invariance(ctx)
     jobs = []
     for k in range(40 * ctx.scale):
         n = int(rng.integers(2, 6))
